@@ -19,7 +19,7 @@ det = sum(1 for r in rows if r[3].startswith('detected') and not r[3].startswith
 out_of = sum(1 for r in rows if r[3].startswith('not detected'))
 aft = sum(1 for r in rows if r[3].startswith('detected after'))
 out = ['# Independently seeded property-breaking changes', '',
- 'Each directory holds a change written by a fresh sub-agent that was given only the text of one property (from round 2 on also a one-paragraph description of the earlier seeds for that property, so that it picks a different mechanism) and a scratch worktree of `/repo` — nothing from /verif: `patch.diff`, the agent\'s demonstration (`demo/`, fails with the patch, passes without) and `meta.json` (what it breaks, what it needs to manifest, what was run, and `check_result`). Every change was re-verified by `tools/seedcheck.sh` in a fresh worktree (applies, builds, existing tests of the touched packages pass, demo passes/fails as claimed) and the corresponding check was then run against the patched tree through `VERIF_OVERLAY` (never touching `/repo`). `<ID>` = round 1, `<ID>-r2` = round 2, `<ID>-r3` = round 3, `<ID>-r4` = round 4, `<ID>-r5` = round 5.', '',
+ 'Each directory holds a change written by a fresh sub-agent that was given only the text of one property (from round 2 on also a one-paragraph description of the earlier seeds for that property, so that it picks a different mechanism) and a scratch worktree of `/repo` — nothing from /verif: `patch.diff`, the agent\'s demonstration (`demo/`, fails with the patch, passes without) and `meta.json` (what it breaks, what it needs to manifest, what was run, and `check_result`). Every change was re-verified by `tools/seedcheck.sh` in a fresh worktree (applies, builds, existing tests of the touched packages pass, demo passes/fails as claimed) and the corresponding check was then run against the patched tree through `VERIF_OVERLAY` (never touching `/repo`). `<ID>` = round 1, `<ID>-r2` = round 2, `<ID>-r3` = round 3, `<ID>-r4` = round 4, `<ID>-r5` = round 5, `<ID>-r6` = round 6.', '',
  '| id | change | needs | check result | signatures |', '|---|---|---|---|---|']
 for r in rows:
     out.append('| ' + ' | '.join(r) + ' |')
